@@ -1367,6 +1367,8 @@ def impl_seq(a):
             out.append(ser.render(obj, "obj"))
         except SerializerError:
             out.append("RAISES:SerializerError")
+        except InvalidOperation:
+            out.append("RAISES:InvalidOperation")
     return ok(out)
 
 
@@ -1495,8 +1497,43 @@ def moved_init_false(a):
     return False
 
 
+def _defaults(a):
+    for e in a["world"]:
+        for f in e.get("fields", []):
+            d = f["default"]
+            if d is not None:
+                yield d.get("value", d.get("factory"))
+
+
 def has_snan(a):
-    return any(j["t"] == "opaque" and j.get("num") == "snan" for j in walk_vals(a["val"]))
+    """a signaling NaN in the value or in a class default (both sides of `default == value`)"""
+    vals = [a["val"], *_defaults(a)]
+    return any(j["t"] == "opaque" and j.get("num") == "snan" for v in vals for j in walk_vals(v))
+
+
+def _map_everywhere(a, quiet):
+    """apply a leaf replacement to the value and to every class default"""
+    world = []
+    for e in a["world"]:
+        if "fields" in e:
+            fs = []
+            for f in e["fields"]:
+                d = f["default"]
+                if d is not None:
+                    k = "value" if "value" in d else "factory"
+                    d = {k: _map_val(d[k], quiet)}
+                fs.append({**f, "default": d})
+            e = {**e, "fields": fs}
+        world.append(e)
+    return {**a, "world": world, "val": _map_val(a["val"], quiet)}
+
+
+def _quiet_snan(a):
+    return _map_everywhere(a, lambda j: J(Decimal("NaN")) if j["t"] == "opaque" and j.get("num") == "snan" else None)
+
+
+def _drop_odd_enum(a):
+    return _map_everywhere(a, lambda j: {"t": "none"} if j["t"] == "enum" and odd_enum_name(j["member"]) else None)
 
 
 def _map_val(j, fn):
@@ -1535,13 +1572,13 @@ def _reset_init_false(a):
 KNOWN_REGIONS = [
     ("C18-enum-member-name", has_odd_enum,
      lambda msg: re.match(r"exec of the rendered source raised (SyntaxError|AttributeError|NameError)\b", msg) is not None,
-     lambda a: {**a, "val": _map_val(a["val"], lambda j: {"t": "none"} if j["t"] == "enum" and odd_enum_name(j["member"]) else None)}),
+     _drop_odd_enum),
     ("C18-init-false-attribute", moved_init_false,
      lambda msg: msg.startswith("rendered source evaluates to"),
      _reset_init_false),
     ("C18-decimal-snan-compare", has_snan,
      lambda msg: msg.startswith("render raised InvalidOperation"),
-     lambda a: {**a, "val": _map_val(a["val"], lambda j: J(Decimal("NaN")) if j["t"] == "opaque" and j.get("num") == "snan" else None)}),
+     _quiet_snan),
 ]
 
 
